@@ -130,6 +130,35 @@ def p_gridop(e, arg):
     e.explore(prog, 'gridop')
 
 
+def p_gridop_sequence(e, arg):
+    """Two or three real editing operations in a row: the invariant holds after each."""
+    start, steps = arg
+    tag = '[%s on %s]' % (' then '.join('%s%s' % (op, tuple(a)) for op, a in steps), start if isinstance(start, str) else 'fromgeo %dx%dx%d atm%d' % start)
+    def prog(e):
+        if start == 'four_blocks':
+            G = make_grid(e)
+        else:
+            from contracts.c04 import build_rect
+            geo, S = build_rect(e, start[0], start[1], start[2], start[3], 0, 1)
+            G = e.call(e.getattr(e.call(e.load_module('t2grids').globals['t2grid'], []), 'fromgeo'), [geo])
+        for k, (op, a) in enumerate(steps):
+            try:
+                if op == 'plus':
+                    G = e.call(e.getattr(G, '__add__'), [_other_grid(e, list(a), 'oth%d' % k)])
+                else:
+                    globals()['op_' + op](e, G, a)
+            except PyExc as ex:
+                e.fail('post:operation_%d_completes' % (k + 1) + tag, 'raises %s: %s' % (ex.cls, ex.msg)); return
+            post = wf(G)
+            for g in GROUPS:
+                name = 'post:%s_after_operation_%d%s' % (g, k + 1, tag)
+                if post[g]:
+                    e.fail(name, '; '.join(post[g][:3]))
+                else:
+                    e.prove(True, name)
+    e.explore(prog, 'gridop_sequence')
+
+
 FB = 'four_blocks'
 RG = (2, 1, 2, 0)
 OPS = [(FB, 'add_block', ('  e 1',)), (FB, 'delete_block', (0,)), (FB, 'delete_block', (3,)), (FB, 'delete_connection', (1,)), (FB, 'add_connection', (0, 2)),
@@ -140,7 +169,10 @@ OPS = [(FB, 'add_block', ('  e 1',)), (FB, 'delete_block', (0,)), (FB, 'delete_b
        (RG, 'plus', ('  p 1', '  q 1')), (RG, 'delete_connection', (0,)),
        # the known findings (replacing an object that is in use)
        (FB, 'add_block', (NAMES[0],)), (FB, 'add_rocktype', ('dfalt',)), (FB, 'delete_rocktype', ('dfalt',)), (FB, 'plus', (NAMES[1], '  q 1'))]
-PROGRAMS = [('p_gridop', x) for x in OPS]
+SEQUENCES = [(FB, (('delete_block', (0,)), ('add_block', ('  a 1',)), ('add_connection', (0, 3)))), (FB, (('rename_blocks', ((0, 1), (1, 0))), ('reorder', (3, 2, 1, 0)), ('demote_block', (0,)))),
+             (FB, (('add_rocktype', ('rock2',)), ('rename_rocktype', ('newrk',)), ('clean_rocktypes', ()))), (FB, (('plus', ('  p 1', '  q 1')), ('delete_block', (4,)), ('rename_blocks', ((0, '  z 9'),)))),
+             (RG, (('delete_block', (1,)), ('reorder', ()), ('add_block', ('  z 9',)))), (RG, (('rename_blocks', ((1, 2), (2, 1))), ('delete_connection', (0,)), ('demote_block', (1,))))]
+PROGRAMS = [('p_gridop', x) for x in OPS] + [('p_gridop_sequence', x) for x in SEQUENCES]
 
 
 def replay(obname, model, result):
